@@ -18,7 +18,25 @@ fn run_factor(ctx: &mut Ctx, f: &[BigInt], p: &BigInt, pusize: usize, seed: u64,
     let pf = pz(f);
     let (ans, log) = run_rng(seed, script, || show_factors(&factorize_mod_p::<BigInt>(&pf, p, pusize)));
     ctx.emit("pm.factor", &[show_pz(&pf), p.to_string(), pusize.to_string(), log.clone()], ans.clone());
+    // the same generic routine at i128 (p < 2^61) now and then: other arithmetic, other sampler
+    if p.bits() <= 61 && pf.dat.iter().all(|c| c.bits() <= 61) && pusize as u128 == p.to_u128().unwrap_or(0) && ctx.lines.len() % 4 == 0 {
+        run_factor_i128(ctx, &pf.dat, p, pusize);
+    }
     (ans, log)
+}
+fn run_factor_i128(ctx: &mut Ctx, f: &[BigInt], p: &BigInt, pusize: usize) {
+    use num::ToPrimitive;
+    use rust_number_theory::polynomial::Polynomial;
+    let pf = Polynomial::from_raw(f.iter().map(|x| x.to_i128().unwrap()).collect::<Vec<i128>>());
+    let pp = p.to_i128().unwrap();
+    let seed = ctx.rng.next();
+    let (ans, _) = run_rng(seed, vec![], || {
+        let r = factorize_mod_p::<i128>(&pf, &pp, pusize);
+        let back: Vec<(PZ, usize)> =
+            r.into_iter().map(|(g, e)| (pz(&g.dat.iter().map(|x| BigInt::from(*x)).collect::<Vec<_>>()), e)).collect();
+        show_factors(&back)
+    });
+    ctx.emit("pm.factor.i128", &[show_ints(f), p.to_string(), pusize.to_string()], ans);
 }
 /// the machine-word copy of p that in-tree callers pass: p itself when it fits, else 0
 fn word_of(p: &BigInt) -> usize {
@@ -154,8 +172,11 @@ pub fn replay(ctx: &mut Ctx, f: &[&str]) -> bool {
     match (f[0], f.len()) {
         ("pm.factor", 5) => {
             let script = parse_chunks(f[4]);
+            let n = ctx.lines.len();
             run_factor(ctx, &parse_ints(f[1]), &parse_int(f[2]), f[3].parse().expect("pusize"), 0, script);
+            ctx.lines.truncate(n + 1);
         }
+        ("pm.factor.i128", 4) => run_factor_i128(ctx, &parse_ints(f[1]), &parse_int(f[2]), f[3].parse().expect("pusize")),
         ("pm.factor.same", 4) => {
             let (fz, p) = (parse_ints(f[1]), parse_int(f[2]));
             let low = low_word(&p);
